@@ -107,7 +107,7 @@ def showVal : Val → String
   | .str s => "S:" ++ hexOfNats s
   | .shared s => "SS:" ++ hexOfNats s
   | .bool b => if b then "B:1" else "B:0"
-  | .error c => s!"E:{c}"
+  | .error c => s!"E:{c.code}"
   | .dateIso s => "DI:" ++ hexOfNats s
   | .num t f strict => s!"N:{hexOfNats t}:{f.tag}:{if strict then 1 else 0}"
 
@@ -178,14 +178,23 @@ def handleSheet (args : List String) : String :=
   | _ => "bad-args"
 
 
-/-! `render` request: `render <pfx 0|1> <dim -|sr,sc,er,ec> <row>…`;  row = `<r>,<explicit>/<cell>/<cell>…`;
-    cell = `<c>,<explicit>,<lower>,<style !|hex>,<formula !|hex>,<kind>,<payload>` with kind/payload
-    `b,-` blank · `n0,<hex>` / `n1,<hex>` number · `s,<idx>` shared · `i,<hex>` inline · `f,<hex>` str ·
-    `t,<0|1>` bool · `e,<code>` error · `d,<hex>` ISO date. Reply: the events, or `bad-…`. -/
+/-! `render` request: `render <pfx 0|1> <dim -|sr,sc,er,ec> <flags> <row>…`
+    flags: letters of `b` (siblings before `<dimension>`), `a` (siblings after it), `x` (elements after `</sheetData>`),
+           `w` (white space / comments between rows and cells), or `-`
+    row  = `<r>,<explicit>,<prefix>,<attr mode 0|1|2>/<cell>/<cell>…`   attr mode: 1 = `spans` in front, 2 = `ht customHeight` behind
+    cell = `<c>,<explicit>,<lower>,<style !|hex>,<formula !|hex>,<kind>,<payload>,<prefix>,<attr mode 0..3>,<split 0|1>`
+           attr mode: 1 = reversed, 2 = reversed with `cm` in front, 3 = `vm ph` appended; split 1 = one piece per character
+           kind/payload: `b,-` blank · `n0,<hex>` / `n1,<hex>` number · `s,<idx>` shared · `i,<hex>` inline · `f,<hex>` str ·
+           `t,<0|1>` bool · `e,<code>` error · `d,<hex>` ISO date.
+    Reply: the events of `Spec.renderSheet`, or `bad-…`. -/
 
 open XlsxSheet in
 def optHex (s : String) : Option (Option Bytes) :=
   if s = "!" then some none else (natsOfHex s).map some
+
+def errOfCode : Nat → Option CellErrorType
+  | 0 => some .div0 | 1 => some .nA | 2 => some .name | 3 => some .null
+  | 4 => some .num | 5 => some .ref | 6 => some .value | _ => none
 
 open XlsxSheet in
 def contentOfWire (kind payload : String) : Option Content :=
@@ -197,7 +206,7 @@ def contentOfWire (kind payload : String) : Option Content :=
   | "i" => (natsOfHex payload).map .inline
   | "f" => (natsOfHex payload).map .fstr
   | "t" => some (.bool (payload = "1"))
-  | "e" => payload.toNat?.map .err
+  | "e" => (payload.toNat?.bind errOfCode).map .err
   | "d" => (natsOfHex payload).map .iso
   | _ => none
 
@@ -206,25 +215,37 @@ structure CellW where
   explicit : Bool
   lower : Bool
   spec : XlsxSheet.CellSpec
+  pfx : Bool
+  attrMode : Nat
+  split : Bool
 
 def cellOfWire (w : String) : Option CellW :=
   match w.splitOn "," with
-  | [c, ex, lo, st, fo, kind, payload] => do
+  | [c, ex, lo, st, fo, kind, payload, px, am, sp] => do
     let c ← c.toNat?
     let st ← optHex st
     let fo ← optHex fo
     let content ← contentOfWire kind payload
-    pure ⟨c, ex = "1", lo = "1", ⟨content, st, fo⟩⟩
+    let am ← am.toNat?
+    pure ⟨c, ex = "1", lo = "1", ⟨content, st, fo⟩, px = "1", am, sp = "1"⟩
   | _ => none
 
-def rowOfWire (w : String) : Option (Nat × Bool × List CellW) :=
+structure RowW where
+  row : Nat
+  explicit : Bool
+  pfx : Bool
+  attrMode : Nat
+  cells : List CellW
+
+def rowOfWire (w : String) : Option RowW :=
   match w.splitOn "/" with
   | hd :: cells =>
     match hd.splitOn "," with
-    | [r, ex] => do
+    | [r, ex, px, am] => do
       let r ← r.toNat?
+      let am ← am.toNat?
       let cs ← cells.mapM cellOfWire
-      pure (r, ex = "1", cs)
+      pure ⟨r, ex = "1", px = "1", am, cs⟩
     | _ => none
   | [] => none
 
@@ -234,18 +255,67 @@ def dimOfWire (w : String) : Option (Option Dims) :=
   | some [a, b, c, d] => some (some ⟨a, b, c, d⟩)
   | _ => none
 
+/-- one piece per UTF-8 character: cut before every byte that is not a continuation byte -/
+def cutChars : Bytes → List Bytes
+  | [] => []
+  | b :: rest =>
+    match cutChars rest with
+    | [] => [[b]]
+    | c :: cs =>
+      let cont : Bool := match rest with | r :: _ => decide (128 ≤ r ∧ r < 192) | [] => false
+      if cont then (b :: c) :: cs else [b] :: c :: cs
+
+def cellArrangeOf (mode : Nat) (a : Attrs) : Attrs :=
+  match mode with
+  | 1 => a.reverse
+  | 2 => (asciiBytes "cm", [49]) :: a.reverse
+  | 3 => a ++ [(asciiBytes "vm", [49]), (asciiBytes "ph", [48])]
+  | _ => a
+
+def rowArrangeOf (mode : Nat) (a : Attrs) : Attrs :=
+  match mode with
+  | 1 => (asciiBytes "spans", asciiBytes "1:3") :: a
+  | 2 => a ++ [(asciiBytes "ht", asciiBytes "15"), (asciiBytes "customHeight", [49])]
+  | _ => a
+
+def elem (p : Bool) (name : String) (attrs : Attrs) (kids : List Ev) : List Ev :=
+  [Ev.start (XlsxSheet.q p (asciiBytes name)) attrs] ++ kids ++ [Ev.stop (XlsxSheet.q p (asciiBytes name))]
+
 def handleRender (args : List String) : String :=
   match args with
-  | pfx :: dim :: rows =>
+  | pfx :: dim :: flags :: rows =>
     match dimOfWire dim, rows.mapM rowOfWire with
     | some d, some rs =>
-      let sheet : XlsxSheet.Sheet := rs.map fun r => (r.1, r.2.2.map fun c => (c.col, c.spec))
-      let rowEx : Nat → Bool := fun r => ((rs.find? (·.1 == r)).map (·.2.1)).getD true
-      let cellW : Nat → Nat → Option CellW := fun r c => (rs.find? (·.1 == r)).bind fun row => row.2.2.find? (·.col == c)
+      let p := pfx = "1"
+      let has (c : Char) : Bool := flags.toList.contains c
+      let sheet : XlsxSheet.Sheet := rs.map fun r => (r.row, r.cells.map fun c => (c.col, c.spec))
+      let rowW : Nat → Option RowW := fun r => rs.find? (·.row == r)
+      let cellW : Nat → Nat → Option CellW := fun r c => (rowW r).bind fun row => row.cells.find? (·.col == c)
+      let ws : Bool := has 'w'
       let lay : XlsxSheet.Layout :=
-        { pfx := pfx = "1", dim := d, rowExplicit := rowEx,
+        { pfx := p, dim := d,
+          rowPfx := fun r => ((rowW r).map (·.pfx)).getD false,
+          cellPfx := fun r c => ((cellW r c).map (·.pfx)).getD false,
+          rowExplicit := fun r => ((rowW r).map (·.explicit)).getD true,
           cellExplicit := fun r c => ((cellW r c).map (·.explicit)).getD true,
-          cellLower := fun r c => ((cellW r c).map (·.lower)).getD false }
+          cellLower := fun r c => ((cellW r c).map (·.lower)).getD false,
+          cellArrange := fun r c a => cellArrangeOf (((cellW r c).map (·.attrMode)).getD 0) a,
+          rowArrange := fun r a => rowArrangeOf (((rowW r).map (·.attrMode)).getD 0) a,
+          split := fun r c t => if ((cellW r c).map (·.split)).getD false then cutChars t else (if t = [] then [] else [t]),
+          beforeDim := if has 'b' then elem p "sheetPr" [] (elem p "tabColor" [(asciiBytes "rgb", asciiBytes "FFFF0000")] []) else [],
+          afterDim := if has 'a' then
+              elem p "sheetViews" [] (elem p "sheetView" [(asciiBytes "workbookViewId", [48])] (elem p "selection" [(asciiBytes "activeCell", asciiBytes "B2")] []))
+              ++ elem p "sheetFormatPr" [(asciiBytes "defaultRowHeight", asciiBytes "15")] []
+              ++ elem p "cols" [] (elem p "col" [(asciiBytes "min", [49]), (asciiBytes "max", [50]), (asciiBytes "width", asciiBytes "12")] [])
+            else [],
+          after := if has 'x' then
+              elem p "pageMargins" [(asciiBytes "left", asciiBytes "0.7")] []
+              ++ elem p "extLst" [] (elem p "ext" [(asciiBytes "uri", asciiBytes "{x}")] (elem p "sheetData" [] (elem p "row" [(nR, [55])] [])))
+            else [],
+          gapRow := fun _ => if ws then [.text [10, 32, 32]] else [],
+          gapCell := fun _ _ => if ws then [.text [10, 32, 32, 32, 32], .other] else [],
+          gapRowEnd := fun _ => if ws then [.other, .text [10, 32, 32]] else [],
+          gapEnd := if ws then [.text [10]] else [] }
       let evs := XlsxSheet.renderSheet sheet lay
       if evs.isEmpty then "-" else " ".intercalate (evs.map wireOfEv)
     | _, _ => "bad-render"
